@@ -699,6 +699,31 @@ func (g *gen) node(mi int, m *Mod, sc *scope, where string, depth int) *Node {
 		if t.Chance(1, 8) {
 			n.When = "../" + g.id("w")
 		}
+		if t.Chance(1, 8) && n.Kind != KInput && n.Kind != KOutput {
+			pool := []string{"status deprecated;", "status current;", "reference \"ref " + n.Name + "\";", "if-feature " + []string{"fa", "fb"}[t.Intn(2)] + ";"}
+			switch n.Kind {
+			case KContainer:
+				pool = append(pool, "must \"../"+g.id("m")+"\";", "presence \"p "+n.Name+"\";")
+			case KLeaf, KLeafList, KList, KAnyData, KAnyXML:
+				pool = append(pool, "must \"../"+g.id("m")+"\";", "must \"count(../"+g.id("m")+") > 0\";")
+			}
+			for _, i := range t.Perm(len(pool))[:t.Range(1, 3)] {
+				n.More = append(n.More, pool[i])
+			}
+			// (two status statements would be rejected)
+			seen := false
+			var keep []string
+			for _, x := range n.More {
+				if strings.HasPrefix(x, "status ") {
+					if seen {
+						continue
+					}
+					seen = true
+				}
+				keep = append(keep, x)
+			}
+			n.More = keep
+		}
 		if t.Chance(1, 10) {
 			n.Ext = g.id("x")
 			if t.Chance(1, 2) {
